@@ -73,6 +73,7 @@ def shard(args):
     path = os.path.join(wd, 'b%d.hxb' % s)
     hxb.write_batch(path, cases)
     res = fw.run_hx([bdir + '/hx', 'run', path, '--crash-dir', wd], timeout=7200)
+    fw.discard(path)
     out = dict(viol=[], crashes=res['crashes'], hung=res['hung'], n=0, distinct=set(), stats=None, samples=[], monitor=[], bodies=0, body_bytes=0, framings={}, feats={})
     for l in res['lines']:
         if l.startswith('S '):
@@ -114,7 +115,7 @@ def run(tier):
     wd = fw.workdir('C06')
     fw.replay_dir('C06')
     n = SIZES[tier]
-    nsh = fw.NPROC
+    nsh = fw.nshards(n, SIZES['quick'])
     outs = fw.pool_map(shard, [(bdir, wd, fw.seed(), s, nsh, n) for s in range(nsh)])
     tot = dict(n=0, bodies=0, bytes=0)
     distinct, samples, stats, framings, feats = set(), [], [], {}, {}
